@@ -15,3 +15,17 @@ Print Assumptions C16_source_v1_is_contained_in.
 Theorem C16_source_v1_has_wildcards : forall s : string, V1.Subject_HasWildCards s = has_wildcards s.
 Proof. exact src_v1_has_wildcards. Qed.
 Print Assumptions C16_source_v1_has_wildcards.
+
+(* Exports.HasExportContainingSubject of both libraries: true exactly when some entry of the list that is there holds a
+   subject containing the one asked for; the exports are opaque values of any type, known through their subject and
+   through whether they are nil *)
+Theorem C16_source_has_export_containing : forall (V : Type) (vnil : V) (subj_of : V -> string) (is_nil_v : V -> bool) (l : list V) (subject : string),
+  V2.Exports_HasExportContainingSubject V vnil subj_of is_nil_v l subject
+  = existsb (fun e => negb (is_nil_v e) && is_contained_in subject (subj_of e)) l.
+Proof. intros V vnil subj_of is_nil_v. exact (src_has_export_containing vnil subj_of is_nil_v). Qed.
+Print Assumptions C16_source_has_export_containing.
+Theorem C16_source_v1_has_export_containing : forall (V : Type) (vnil : V) (subj_of : V -> string) (is_nil_v : V -> bool) (l : list V) (subject : string),
+  V1.Exports_HasExportContainingSubject V vnil subj_of is_nil_v l subject
+  = existsb (fun e => negb (is_nil_v e) && is_contained_in subject (subj_of e)) l.
+Proof. intros V vnil subj_of is_nil_v. exact (src_v1_has_export_containing vnil subj_of is_nil_v). Qed.
+Print Assumptions C16_source_v1_has_export_containing.
